@@ -260,6 +260,7 @@ def fm_replay(build):
                                last_claimed=d.get('last_claimed', ()), now_s=d.get('now_s'), mints=d.get('mints', ()))
         for which, val in d.get('counters', {}).items():
             steps.append({'op': 'set_counter', 'which': which, 'value': str(val)})
+        steps += d.get('pre_tx_steps', [])          # e.g. native fault injection armed right before the transaction(s)
         for (sender, msg, funds) in d['txs']:
             steps.append({'op': 'execute', 'contract': 'farm_manager', 'sender': sender, 'funds': [coin_j(dd, a) for dd, a in funds], 'msg': msg})
         farmcfg = {'max_concurrent_farms': 2}
